@@ -295,8 +295,8 @@ class Array:
             if self._dtype.name != iterable._dtype.name or self._dtype.bitlength != iterable._dtype.bitlength:
                 raise TypeError(
                     f"Cannot extend an Array with format '{self._dtype}' from an Array of format '{iterable._dtype}'.")
-            # No need to iterate over the elements, we can just append the data
-            self.data.append(iterable.data)
+            # No need to iterate over the elements, we can just append the data (but not any trailing bits)
+            self.data.append(iterable.data[0: len(iterable) * iterable._dtype.bitlength])
         elif isinstance(iterable, array.array):
             # array.array types are always native-endian, hence the '='
             name_value = utils.parse_single_struct_token('=' + iterable.typecode)
@@ -495,6 +495,10 @@ class Array:
         a_copy = self.__class__(self._dtype)
         a_copy.data = copy.copy(self.data)
         return a_copy
+
+    def __deepcopy__(self, memo) -> Array:
+        # The dtype is immutable and the data is the only other state, so this is the same as a shallow copy.
+        return self.__copy__()
 
     def _apply_op_to_all_elements(self, op, value: Union[int, float, None], is_comparison: bool = False) -> Array:
         """Apply op with value to each element of the Array and return a new Array"""
@@ -736,9 +740,9 @@ class Array:
         return self._apply_op_to_all_elements(operator.add, other)
 
     def __rsub__(self, other: Union[int, float]) -> Array:
-        # i - A == (-A) + i
-        neg = self._apply_op_to_all_elements(operator.neg, None)
-        return neg._apply_op_to_all_elements(operator.add, other)
+        def rsub(a, b):
+            return b - a
+        return self._apply_op_to_all_elements(rsub, other)
 
     # Reverse operators between a scalar and something that can be a BitArray.
 
@@ -774,8 +778,10 @@ class Array:
         return self._apply_op_to_all_elements(operator.le, other, is_comparison=True)
 
     def _eq_ne(self, op, other: Any) -> Array:
-        if isinstance(other, (int, float, str, Bits)):
+        if isinstance(other, (int, float, str, Bits, bytes, bytearray)):
             return self._apply_op_to_all_elements(op, other, is_comparison=True)
+        if isinstance(other, Array):
+            return self._apply_op_between_arrays(op, other, is_comparison=True)
         other = self.__class__(self.dtype, other)
         return self._apply_op_between_arrays(op, other, is_comparison=True)
 
